@@ -25,10 +25,11 @@ const (
 	rcBadBool
 	rcSetError
 	rcVersionNotFirst
+	rcMandatoryLeftToBadEnv
 	numRejectCauses
 )
 
-var rejectCauseNames = []string{"none", "missing-positional", "surplus-positional", "undeclared-option", "bad-int", "bad-bool", "injected-set-error", "version-flag-not-in-first-position"}
+var rejectCauseNames = []string{"none", "missing-positional", "surplus-positional", "undeclared-option", "bad-int", "bad-bool", "injected-set-error", "version-flag-not-in-first-position", "mandatory-option-left-to-an-invalid-environment-value"}
 
 func hasTpl(tpl int, xs ...int) bool {
 	for _, x := range xs {
@@ -102,6 +103,12 @@ func applyReject(t *Tape, tpl int, c *CmdDecl, toks []string, cause rejectCause)
 			return []string{"--num=5", []string{"-V", "--version"}[t.Draw(2)], "x1"}, true
 		}
 		return nil, false
+	case rcMandatoryLeftToBadEnv:
+		// (the caller installs the invalid environment value)
+		if tpl != 8 {
+			return nil, false
+		}
+		return nil, true
 	case rcSetError:
 		if tpl != 6 {
 			return nil, false
@@ -165,6 +172,32 @@ func applyAmbient(m map[string]string) func() {
 	}
 }
 
+func caseEnv(cc Case) EnvState {
+	switch c := cc.(type) {
+	case *c07Case:
+		return c.Env
+	case *pairCase:
+		e := c.A.Env
+		for k := range e {
+			if e[k] == nil {
+				e[k] = c.B.Env[k]
+			}
+		}
+		return e
+	case *sessionCase:
+		var e EnvState
+		for _, inv := range c.Invocations {
+			for k := range e {
+				if e[k] == nil {
+					e[k] = inv.Env[k]
+				}
+			}
+		}
+		return e
+	}
+	return EnvState{}
+}
+
 func caseAmbient(cc Case) map[string]string {
 	switch c := cc.(type) {
 	case *c07Case:
@@ -203,6 +236,7 @@ type c07Case struct {
 	HelpTok     string
 	ExtraBroken int // help cases: another level made invalid on purpose (-1 none)
 	VersionText string
+	Env         EnvState          // the simulator-owned variables (only a level with an env-backed option looks at them)
 	Ambient     map[string]string // well-known variables of the host environment the library has no business reading
 }
 
@@ -216,6 +250,9 @@ func (c *c07Case) Describe() interface{} {
 	}
 	if len(c.Ambient) > 0 {
 		m["ambient_environment"] = c.Ambient
+	}
+	if e := c.Env.Describe(); len(e) > 0 {
+		m["env"] = e
 	}
 	return m
 }
@@ -298,6 +335,11 @@ func c07Invocation(t *Tape, tc *TreeCase, allowSetError bool) *c07Case {
 				if cause == rcVersionNotFirst {
 					tc.App.Version = []string{"V version", "9.9.9-sim"}
 				}
+				if cause == rcMandatoryLeftToBadEnv {
+					if bad := []string{"", ",", "8080,", ",8080", ",,,", "zz", "1,x", " "}[t.Draw(8)]; bad != "" {
+						c.Env.Set(0, bad)
+					}
+				}
 				break
 			}
 		}
@@ -359,7 +401,8 @@ func clip(s string, n int) string {
 }
 
 func (c07Prop) Exec(cc Case, st *Stats) *Violation {
-	EnvState{}.Apply()
+	caseEnv(cc).Apply()
+	defer EnvState{}.Apply()
 	defer applyAmbient(caseAmbient(cc))()
 	if pc, ok := cc.(*pairCase); ok {
 		return execPair(pc, st, c07Verdict)
@@ -584,7 +627,8 @@ func c14Invocation(t *Tape, tc *TreeCase, kind string) *c07Case {
 }
 
 func (c14Prop) Exec(cc Case, st *Stats) *Violation {
-	EnvState{}.Apply()
+	caseEnv(cc).Apply()
+	defer EnvState{}.Apply()
 	defer applyAmbient(caseAmbient(cc))()
 	if pc, ok := cc.(*pairCase); ok {
 		return execPair(pc, st, c14Verdict)
